@@ -339,6 +339,14 @@ func runCase(cs poolsim.Case) (string, *failure, stats, *poolsim.Runner) {
 		after1, after2 := ids(a1), ids2(a2)
 		var news []types.TransactionID
 		seen := map[types.TransactionID]bool{}
+		// (rebasing a stale set removes the members that a block of the path confirmed)
+		if s.V2 && s.Basis != tipIdx {
+			for _, a := range poolsim.Ancestors(r.Tip) {
+				for _, x := range a.Block.V2Transactions() {
+					seen[x.ID()] = true
+				}
+			}
+		}
 		for _, id := range setIDs {
 			if !inPool[id] && !seen[id] {
 				seen[id] = true
@@ -478,7 +486,7 @@ func run(c *hx.Ctx) {
 		res.WriteCases("Run.Run_C14", cases)
 		return
 	}
-	n := c.Scale(60, 1500)
+	n := c.Scale(200, 3000)
 	for i := 0; i < n; i++ {
 		g := c.R.Fork()
 		cs := poolsim.Case{Seed: g.U64(), Regime: []int{1, 2, 0, 1, 2, 1}[i%6], Opts: chaingen.GenOpts{Blocks: 4 + g.Intn(9), Branchiness: 2 + g.Intn(4), TxPerBlock: g.Intn(3), Jitter: g.Intn(3)}}
